@@ -230,7 +230,10 @@ class Interp:
                         try:
                             self.modconsts[ck] = const_value(st.value)
                         except ValueError:
-                            return _MISSING
+                            try:
+                                self.modconsts[ck] = self.expr(st.value, {})  # e.g. a table mentioning type names (stubs given by the rule)
+                            except AnalysisError:
+                                return _MISSING
                     return self.modconsts[ck]  # one object per interpreter: module-level state persists across calls
         return _MISSING
 
@@ -350,6 +353,10 @@ class Interp:
         if isinstance(st, ast.Return):
             return _Ret(self.expr(st.value, env) if st.value is not None else None)
         if isinstance(st, ast.Raise):
+            if st.exc is None or (isinstance(st.exc, ast.Name) and isinstance(env.get(st.exc.id), Raised)):
+                cur = env.get(st.exc.id) if st.exc is not None else next((v for v in reversed(list(env.values())) if isinstance(v, Raised)), None)
+                if cur is not None:
+                    raise cur
             raise Raised(ast.unparse(st)[:60])
         if isinstance(st, ast.Assert):
             v = self.expr(st.test, env)
@@ -392,6 +399,75 @@ class Interp:
             else:
                 if st.orelse:
                     return self.block(st.orelse, env)
+            return None
+        if isinstance(st, ast.With):
+            mgrs = []
+            for item in st.items:
+                m_ = self.expr(item.context_expr, env)
+                if not isinstance(m_, PyNative) or not hasattr(m_, "__enter__"):
+                    raise AnalysisError(f"absint: context manager `{ast.unparse(item.context_expr)[:40]}` not modelled")
+                v = m_.__enter__()
+                mgrs.append(m_)
+                if item.optional_vars is not None:
+                    self.store(item.optional_vars, v, env)
+            try:
+                r = self.block(st.body, env)
+            except Raised:
+                for m_ in reversed(mgrs):
+                    m_.__exit__(Raised, None, None)
+                raise
+            for m_ in reversed(mgrs):
+                m_.__exit__(None, None, None)
+            return r
+        if isinstance(st, ast.Try):
+            def fin(r_):
+                if st.finalbody:
+                    r2 = self.block(st.finalbody, env)
+                    if r2 is not None:
+                        return r2
+                return r_
+            try:
+                r = self.block(st.body, env)
+            except Raised as ex:
+                for h in st.handlers:
+                    names = []
+                    if h.type is not None:
+                        for t_ in (h.type.elts if isinstance(h.type, ast.Tuple) else [h.type]):
+                            names.append((dotted(t_) or "").split(".")[-1])
+                    parents = {"FileNotFoundError": ("OSError", "IOError"), "KeyError": ("LookupError",), "IndexError": ("LookupError",),
+                               "ZeroDivisionError": ("ArithmeticError",), "ModuleNotFoundError": ("ImportError",)}
+                    what = ex.what
+                    kind = what.split(":")[0].replace("raise ", "").split("(")[0].strip()
+                    if h.type is None or any(n_ in ("Exception", "BaseException") or n_ == kind or n_ in parents.get(kind, ()) for n_ in names):
+                        if h.name:
+                            env[h.name] = ex
+                        try:
+                            return fin(self.block(h.body, env))
+                        except Raised:
+                            fin(None)
+                            raise
+                fin(None)
+                raise
+            if r is None and st.orelse:
+                try:
+                    r = self.block(st.orelse, env)
+                except Raised:
+                    fin(None)
+                    raise
+            return fin(r)
+        if isinstance(st, ast.While):
+            n_ = 0
+            while self.truth(self.expr(st.test, env), st.test):
+                n_ += 1
+                if n_ > 100000:
+                    raise AnalysisError("absint: while loop budget exceeded")
+                r = self.block(st.body, env)
+                if isinstance(r, _Brk):
+                    break
+                if isinstance(r, _Cont):
+                    continue
+                if r is not None:
+                    return r
             return None
         if isinstance(st, ast.Break):
             return _Brk()
@@ -489,6 +565,17 @@ class Interp:
             return a + b
         if isinstance(a, str) and isinstance(b, str) and isinstance(op, ast.Add):
             return a + b
+        if isinstance(op, ast.Mult) and ((isinstance(a, (str, tuple)) and isinstance(b, int)) or (isinstance(b, (str, tuple)) and isinstance(a, int))):
+            return a * b
+        if isinstance(a, PyNative) or isinstance(b, PyNative):
+            import operator as _op
+            fn = {ast.Add: _op.add, ast.Sub: _op.sub, ast.Mult: _op.mul, ast.Div: _op.truediv, ast.FloorDiv: _op.floordiv, ast.Mod: _op.mod,
+                  ast.BitOr: _op.or_, ast.BitAnd: _op.and_}.get(type(op))
+            if fn is not None:
+                try:
+                    return fn(a, b)
+                except TypeError as e:
+                    raise Raised(f"TypeError: {e}")
         raise AnalysisError(f"absint: unsupported binop {type(op).__name__} on {type(a).__name__},{type(b).__name__}")
 
     def isinstance_(self, x, target_node, env):
@@ -681,6 +768,9 @@ class Interp:
                         except ValueError:
                             raise AnalysisError(f"absint: module constant {base.mod.name}.{e.attr} is not a literal")
                 raise AnalysisError(f"absint: {base.mod.name} has no member {e.attr}")
+            if isinstance(base, Rat) and e.attr == "_ufl_is_literal_":
+                # a symbolic scalar stands for a UFL literal exactly when it has no indeterminate but the imaginary unit
+                return all(v == IMAG for p_ in (base.num, base.den) for mono in p_ for v, _k in mono)
             if isinstance(base, _Cls) and e.attr == "__name__":
                 return base.name
             if isinstance(base, _Cls):
@@ -692,9 +782,13 @@ class Interp:
                 return _PyCall(lambda x, _b=base: sum(1 for y in _b if self.equal(x, y)))
             if isinstance(base, (list, tuple)) and e.attr in ("copy", "index", "append", "extend", "remove"):
                 return _ListMeth(base, e.attr)
+            if isinstance(base, set) and e.attr in ("add", "discard", "update", "copy"):
+                return _PyCall(getattr(base, e.attr))
+            if isinstance(base, dict) and e.attr in ("update", "pop", "copy"):
+                return _PyCall(getattr(base, e.attr))
             if isinstance(base, dict) and e.attr in ("items", "keys", "values", "get", "setdefault"):
                 return _DictMeth(base, e.attr)
-            if isinstance(base, str) and e.attr in ("replace", "isalnum", "startswith", "endswith", "format", "format_map", "join", "lower", "upper", "strip", "isidentifier", "split"):
+            if isinstance(base, str) and e.attr in ("replace", "isalnum", "startswith", "endswith", "format", "format_map", "join", "lower", "upper", "strip", "isidentifier", "split", "encode"):
                 return _PyCall(getattr(base, e.attr))
             raise AnalysisError(f"absint: attribute `{ast.unparse(e)}` not modelled")
         if isinstance(e, ast.UnaryOp):
@@ -730,6 +824,13 @@ class Interp:
                     return False
                 left = right
             return True
+        if isinstance(e, ast.Slice):
+            return slice(self.expr(e.lower, env) if e.lower else None, self.expr(e.upper, env) if e.upper else None,
+                         self.expr(e.step, env) if e.step else None)
+        if isinstance(e, ast.NamedExpr):
+            v = self.expr(e.value, env)
+            env[e.target.id] = v
+            return v
         if isinstance(e, ast.IfExp):
             return self.expr(e.body if self.truth(self.expr(e.test, env), e.test) else e.orelse, env)
         if isinstance(e, (ast.List, ast.Tuple)):
@@ -852,7 +953,10 @@ class Interp:
         if fn == "range":
             return list(range(*vals))
         if fn == "zip":
-            return [tuple(t) for t in zip(*[self.iterate(v) for v in vals])]
+            seqs = [self.iterate(v) for v in vals]
+            if kw.get("strict") and len({len(q_) for q_ in seqs}) > 1:
+                raise Raised("ValueError: zip() arguments have different lengths")
+            return [tuple(t) for t in zip(*seqs)]
         if fn == "enumerate":
             return [(i, x) for i, x in enumerate(self.iterate(vals[0]))]
         if fn == "reversed":
@@ -875,8 +979,17 @@ class Interp:
                 return sorted(items, key=lambda x: self.apply(keyf, [x]), reverse=bool(kw.get("reverse", False)))
             except TypeError:
                 raise AnalysisError("absint: sorted() of incomparable items")
-        if fn == "dict" and not vals and not kw:
-            return {}
+        if fn == "dict" and len(vals) <= 1:
+            out = {}
+            if vals:
+                if isinstance(vals[0], dict):
+                    out.update(vals[0])
+                else:
+                    for pair in self.iterate(vals[0]):
+                        k_, v_ = self.iterate(pair)
+                        out[k_] = v_
+            out.update(kw)
+            return out
         if fn == "sum" and 1 <= len(vals) <= 2:
             tot = vals[1] if len(vals) == 2 else 0
             for x in self.iterate(vals[0]):
@@ -920,6 +1033,8 @@ class Interp:
             import collections
 
             return collections.defaultdict(list if not e.args or ast.unparse(e.args[0]) == "list" else dict)
+        if fn == "repr" and len(vals) == 1 and isinstance(vals[0], PyNative):
+            return repr(vals[0])
         if fn in ("str", "repr") and len(vals) == 1:
             return self.to_str(vals[0])
         if fn == "getattr" and len(vals) in (2, 3):
